@@ -3,6 +3,7 @@
 // Domain B: mutated A-strings and arbitrary strings (safety; shared with the libFuzzer target fz_synthetic).
 // Domain C: export with every flag word of topologies loaded from A, reload, re-export.
 #include "topogen.hpp"
+#include <set>
 #include "synth.hpp"
 #include <algorithm>
 #include <functional>
@@ -102,6 +103,17 @@ void h_run(Case &c) {
   CHECK(c, hwloc_get_nbobjs_by_type(t, HWLOC_OBJ_NUMANODE) == (int)numa_expected, "numa_count", "%d NUMA nodes, the description gives %lu", hwloc_get_nbobjs_by_type(t, HWLOC_OBJ_NUMANODE), numa_expected);
   { std::map<uint64_t, long> got, exp; for (hwloc_obj_t n = NULL; (n = hwloc_get_next_obj_by_type(t, HWLOC_OBJ_NUMANODE, n));) got[n->attr->numanode.local_memory]++; for (auto &p : numa_mem) exp[p.first] += p.second;
     CHECK(c, got == exp, "numa_memory", "NUMA local_memory values differ from the description (first got %llu x%ld, expected %llu x%ld)", (unsigned long long)got.begin()->first, got.begin()->second, (unsigned long long)exp.begin()->first, exp.begin()->second); }
+  // the same description under filters that drop some of the written levels (the defaults drop instruction caches; a generated assignment drops
+  // one or two more): whatever is attached to a dropped level stays - NUMA nodes, their sizes and indexes, the PUs
+  for (int variant = 0; variant < 2; variant++) { hwloc_topology_t f; hwloc_topology_init(&f); std::string dropped;
+    if (variant == 1) { for (auto &l : a.lv) if (l.type != HWLOC_OBJ_PU && l.type != HWLOC_OBJ_NUMANODE && l.type != HWLOC_OBJ_GROUP && d.chance(1, 3)) { hwloc_topology_set_type_filter(f, l.type, HWLOC_TYPE_FILTER_KEEP_NONE); dropped += " " + l.name; } else if (l.type != HWLOC_OBJ_GROUP) hwloc_topology_set_type_filter(f, l.type, HWLOC_TYPE_FILTER_KEEP_ALL); if (dropped.empty()) { hwloc_topology_destroy(f); continue; } }
+    c.attempt(std::string("load under ") + (variant ? "filters dropping" + dropped : "the default filters"));
+    CHECK(c, hwloc_topology_set_synthetic(f, s.c_str()) == 0 && hwloc_topology_load(f) == 0, "load_filtered", "the description does not load under %s", variant ? ("filters dropping" + dropped).c_str() : "the default filters"); require_wf(c, f, "filtered synthetic topology");
+    CHECK(c, hwloc_get_nbobjs_by_type(f, HWLOC_OBJ_NUMANODE) == (int)numa_expected, "filtered_numa", "%d NUMA nodes under %s, the description gives %lu", hwloc_get_nbobjs_by_type(f, HWLOC_OBJ_NUMANODE), variant ? ("filters dropping" + dropped).c_str() : "the default filters", numa_expected);
+    std::multiset<std::pair<unsigned, uint64_t>> n1, n2; for (hwloc_obj_t n = NULL; (n = hwloc_get_next_obj_by_type(t, HWLOC_OBJ_NUMANODE, n));) n1.insert({n->os_index, n->attr->numanode.local_memory}); for (hwloc_obj_t n = NULL; (n = hwloc_get_next_obj_by_type(f, HWLOC_OBJ_NUMANODE, n));) n2.insert({n->os_index, n->attr->numanode.local_memory});
+    CHECK(c, n1 == n2, "filtered_numa", "NUMA indexes or sizes change under %s", variant ? ("filters dropping" + dropped).c_str() : "the default filters");
+    CHECK(c, hwloc_get_nbobjs_by_type(f, HWLOC_OBJ_PU) == hwloc_get_nbobjs_by_type(t, HWLOC_OBJ_PU) && hwloc_get_root_obj(f)->total_memory == hwloc_get_root_obj(t)->total_memory, "filtered_numa", "PU count or total memory change under %s", variant ? ("filters dropping" + dropped).c_str() : "the default filters");
+    hwloc_topology_destroy(f); c.cls(variant ? "filtered:generated" : "filtered:defaults"); }
   // arities: every object of a typed level contains arity-product objects of the next typed non-Group level
   { const ALevel *prev = nullptr; unsigned long between = 1;
     for (auto &l : a.lv) { between *= l.arity; if (l.type == HWLOC_OBJ_GROUP || l.type == HWLOC_OBJ_NUMANODE || (l.type == HWLOC_OBJ_DIE && l.arity == 1)) continue;
